@@ -4,6 +4,11 @@
 #include <atomic>
 #include <cstdint>
 
+#ifdef BLUETOE_VERIF
+// verification hook: the harness supplies the types of the shared members
+#include <bluetoe_verif_hooks.hpp>
+#endif
+
 namespace bluetoe {
 namespace details {
 
@@ -30,12 +35,21 @@ namespace details {
         // queue is empty, if both point to the very same element
         // if read_ptr_ != write_ptr_, the ring is not empty and data_[ read_ptr_ ]
         // contains the next element to read from.
+#ifdef BLUETOE_VERIF
+        BLUETOE_VERIF_ATOMIC_INT read_ptr_;
+        BLUETOE_VERIF_ATOMIC_INT write_ptr_;
+#else
         std::atomic_int read_ptr_;
         std::atomic_int write_ptr_;
+#endif
 
         static constexpr std::size_t length = S + 1;
 
+#ifdef BLUETOE_VERIF
+        BLUETOE_VERIF_SHARED_ARRAY( T, length ) data_;
+#else
         T data_[ length ];
+#endif
     };
 
     // implementation
